@@ -146,6 +146,49 @@ Proof.
   eexists. eexists. split; [vm_compute; reflexivity|]. split; [vm_compute; auto 20|vm_compute; reflexivity].
 Qed.
 
+(* ---- Python, the whole file: header (TypeVar lines, helper functions) + body ---- *)
+From TS Require Import Proofs.C12_Python.
+Theorem c12_python uc cfg pd uses defs :
+  c12_py_observe uc cfg pd = Ok (uses, defs) -> c12_py_dom cfg (items_of pd) = true -> c12_py_known cfg pd = None ->
+  c12_good uses defs = true.
+Proof.
+  unfold c12_py_observe. intros H Hdom Hk. apply c12_bind_ok in H as ([ds st] & E & H).
+  injection H as <- <-. cbn [fst snd]. apply c12_good_spec. exact (c12_py_file uc cfg pd ds st E Hdom Hk).
+Qed.
+
+(* non-vacuity: a generic struct S<T> next to a generic alias GA<T> (the struct declares T), a
+   serde(default) OffsetDateTime field next to a plain one (the plain one registers `datetime`), a
+   serde(default) Vec<u8> field mapped to `bytes` whose plain text is registered two levels deep
+   (Option<Option<Vec<u8>>>) by the formatter itself: every half of the theorem is exercised *)
+Definition c12_py_cfg1 : py_config :=
+  {| py_type_mappings := [(lit "Vec<u8>", lit "bytes")]; py_no_version_header := true; py_version := [] |}.
+Definition c12_py_full_pd : parsed :=
+  {| p_structs := [{| sid := c12_mkid (lit "S"); sgenerics := [lit "T"];
+                      sfields := [c12_fld (lit "a") (RSimple (lit "T"));
+                                  {| fid := c12_mkid (lit "at"); fty := RPrim PDateTime; fcomments := [];
+                                     has_default := true; fdecs := [] |};
+                                  c12_fld (lit "at2") (RPrim PDateTime);
+                                  {| fid := c12_mkid (lit "raw"); fty := RVec (RPrim PU8); fcomments := [];
+                                     has_default := true; fdecs := [] |};
+                                  c12_fld (lit "raw2") (ROption (ROption (RVec (RPrim PU8))))];
+                      scomments := []; sdecs := []; sredacted := false |}];
+     p_enums := [];
+     p_aliases := [{| aid := c12_mkid (lit "GA"); agenerics := [lit "T"]; atype := RVec (RSimple (lit "T"));
+                      acomments := []; adecs := []; aredacted := false |}];
+     p_consts := []; p_type_names := []; p_errors := []; p_imports := [] |}.
+
+Example c12_python_file_nonvacuous :
+  c12_py_known c12_py_cfg1 c12_py_full_pd = None /\ c12_py_dom c12_py_cfg1 (items_of c12_py_full_pd) = true /\
+  exists uses defs, c12_py_observe uc_exec c12_py_cfg1 c12_py_full_pd = Ok (uses, defs) /\
+                    In (lit "T") uses /\ In (lit "TypeVar") uses /\ In (lit "parse_rfc3339") uses /\
+                    In (lit "deserialize_binary_data") uses /\ In (lit "datetime") uses /\
+                    c12_good uses defs = true.
+Proof.
+  split; [vm_compute; reflexivity|]. split; [vm_compute; reflexivity|].
+  eexists. eexists. split; [vm_compute; reflexivity|].
+  repeat split; try (vm_compute; reflexivity); apply c12_mem_str_In; vm_compute; reflexivity.
+Qed.
+
 Example c12_go_nonvacuous :
   c12_go_dom c12_go_cfg0 (items_of c12_go_pd) = true /\
   c12_go_observe uc_exec c12_go_cfg0 c12_go_pd = Ok ([lit "json"; lit "time"], [lit "json"; lit "time"]).
